@@ -111,13 +111,17 @@ Definition dispatch_verb (t : mtable) (verb : str) : dres :=
 Inductive mop :=
 | MAdd (ms : list str) (e : mentry)        (* router.add(..., overwrite=False) on this route *)
 | MSet (ms : list str) (e : mentry)        (* overwrite=True *)
-| MRemove (ms : list str).                 (* route.remove_method *)
+| MRemove (ms : list str)                  (* route.remove_method *)
+| MAddRaw (ms : list str) (e : mentry)     (* route.add_method(...) called directly: no upper-casing *)
+| MSetRaw (ms : list str) (e : mentry).    (* route.set_method(...) called directly *)
 
 Definition mstep (t : mtable) (o : mop) : mtable :=
   match o with
   | MAdd ms e => match mt_add t (norm_methods ms) e with Some t' => t' | None => t end
   | MSet ms e => mt_set_all t (norm_methods ms) e
   | MRemove ms => mt_remove t ms
+  | MAddRaw ms e => match mt_add t ms e with Some t' => t' | None => t end
+  | MSetRaw ms e => mt_set_all t ms e
   end.
 
 Definition mrun (ops : list mop) : mtable := fold_left mstep ops [].
